@@ -8,6 +8,7 @@ the generated style table; `C10_n_runs` lifts one repeated run to any number of 
 -/
 import ReuseVerif.Lemmas.Idem
 import ReuseVerif.Lemmas.ReadBack
+import ReuseVerif.Lemmas.C10MultiReadBack
 import ReuseVerif.Theorems.C08
 namespace C10
 open Py Model Spec C08L C10L
@@ -126,6 +127,49 @@ theorem C10_single_readback (s : Generated.Style) (hs : s ∈ Generated.styles) 
   exact single_readback hS text hno blk hblk rest hrest
 
 example : ∃ s ∈ Generated.styles, s.name = "LispCommentStyle" ∧ s.canSingle = true ∧ s.isEmptyStyle = false := by decide
+
+/-- **Table obligation, multi-line mode.**  Every style of the generated table that can write multi-line comments
+    satisfies `MultiOK`: no marker or indentation contains a line boundary; the opener does not end with the
+    terminator; the prefix of a body line (`indentation + middle marker`) does not end with the terminator; and
+    no non-empty end of `prefix + indentation` is a proper beginning of the terminator — so a text line that
+    does not *contain* the terminator cannot complete one across the boundary between marker and text. -/
+theorem C10_multi_table : ∀ s ∈ Generated.styles, s.canMulti = true → s.isEmptyStyle = false → MultiOK s := by
+  decide +kernel
+
+/-- **Multi-line read-back for every header text.**  For every style of the table that can write multi-line
+    comments, every text whose only line boundary is `\n` and that does not contain the style's terminator (the
+    guard of `_create_comment_multi`; with it `createMulti` fails and nothing is written), and *whatever* follows
+    the block's line end: `comment_at_first_character` returns exactly the block `_create_comment_multi`
+    produced — the opener is recognised (also where it looks like a single-line comment: Julia's `#=`), and the
+    first line that ends with the terminator is the block's last line.  Supersedes the multi-line half of
+    `C10_table` (11 representative texts × 5 continuations) by a statement for all texts and continuations. -/
+theorem C10_multi_readback (s : Generated.Style) (hs : s ∈ Generated.styles) (hc : s.canMulti = true)
+    (he : s.isEmptyStyle = false) (text : Text) (hno : NoExoticBreaks text) (blk : Text)
+    (hblk : createMulti s text = .ok blk) (rest : Text) :
+    commentAtFirst s (blk ++ '\n' :: rest) = .ok blk :=
+  multi_readback (C10_multi_table s hs hc he) text hno blk hblk rest
+
+/-- the same through `create_comment`: `--multi-line`, or a style without single-line comments -/
+theorem C10_multi_readback_comment (s : Generated.Style) (hs : s ∈ Generated.styles) (he : s.isEmptyStyle = false)
+    (forceMulti : Bool) (hm : forceMulti = true ∨ s.canSingle = false) (text : Text) (hno : NoExoticBreaks text)
+    (blk : Text) (hblk : createComment s text forceMulti = .ok blk) (rest : Text) :
+    commentAtFirst s (blk ++ '\n' :: rest) = .ok blk := by
+  have h1 : createComment s text forceMulti = createMulti s text := by
+    rcases hm with h | h <;> simp [createComment, he, h]
+  rw [h1] at hblk
+  have hc : s.canMulti = true := by
+    cases hcm : s.canMulti with
+    | true => rfl
+    | false => simp [createMulti, hcm] at hblk
+  exact C10_multi_readback s hs hc he text hno blk hblk rest
+
+/-- the condition excludes something: a C-like style written without the blank between `*` and the text —
+    the text line `/` (which does not contain `*/`) would end the block early -/
+example : ¬ MultiOK (⟨"X", "x", [], none, [], "/*".toList, "*".toList, "*/".toList, " ".toList, [], " ".toList, []⟩ : Generated.Style) := by
+  decide +kernel
+example : ∃ s ∈ Generated.styles, s.name = "JuliaCommentStyle" ∧ s.canMulti = true ∧ s.isEmptyStyle = false := by decide
+example : okComment (createMulti (⟨"X", "x", [], none, [], "/*".toList, "*".toList, "*/".toList, " ".toList, " ".toList, " ".toList, []⟩ : Generated.Style)
+    "a\n\nb".toList) "/*\n * a\n *\n * b\n */".toList = true := by decide +kernel
 
 /-! ### non-vacuity
 
